@@ -36,7 +36,7 @@ def handleTokens (inp : List String) (obs : String) : Verdict :=
       match Biogo.Morass.historyOf w.ac w.ops with
       | none => if m == impl then ok (tags ++ ["illformed"]) else diff m (tags ++ ["illformed"])
       | some h =>
-        let tags := tags ++ (if spawned ≥ 1 && !w.sched.isEmpty then ["nt"] else [])
+        let tags := tags ++ [s!"cycles{min h.length 4}"] ++ (if spawned ≥ 1 && !w.sched.isEmpty then ["nt"] else [])
         if obs == "crash" || obs.startsWith "panic" then fail "harness-process-or-goroutine-panicked" tags
         else if obs == "hang" then fail "hang" tags
         else if w.chunk = 0 || w.flt.isSome then (if m == impl then ok tags else diff m tags)
